@@ -113,6 +113,7 @@ pub fn run_c12(tier: Tier) -> i32 {
         }
     }
     report.set("engine", json!("E2 explicit-state BFS: transitions call the real MqttClientImpl (verif::ClientImpl) on a per-thread virtual clock; the environment is a mirror of the tokio / threaded loop shells"));
+    report.set("rule", json!("state = canonical key of (real MqttClientImpl state, real engine snapshot, loop-shell model: loop state, deadlines, unwritten bytes; event-stream monitor); transition = one thing the event loop can observe next (user call, connect result, read result, write progress, service / reconnect timer), applied to a fresh real client by re-executing the whole history on a virtual clock; from every state the fair closure (cooperating environment) checks the bounded-response clauses; distinct_event_streams = distinct emitted lifecycle event sequences at terminal states"));
     report.set("configs", json!(configs.len()));
     report.add_count("states", states); report.add_count("transitions", transitions); report.add_count("traces_validated_against_impl", executions); report.add_count("fair_closures_run", closures);
     report.set("max_depth", json!(max_depth)); report.set("distinct_event_streams", json!(outcomes)); report.set("per_config", json!(rows)); report.set("samples", json!(samples));
@@ -255,6 +256,7 @@ pub fn run_c19(tier: Tier) -> i32 {
     }
     report.set("engine", json!("E2 back-off plane: every sequence of attempt outcomes up to the bound, for every configuration of the grid, executed on the real MqttClientImpl (advance_reconnect_period, transition_to_state) under the loop mirror with a virtual clock; oracle = reference recurrence"));
     report.set("configs", json!(configs.len()));
+    report.set("rule", json!("state = one sequence of attempt outcomes (refused, handshake rejected, connected for a lifetime around the stability period) for one configuration of the grid base x max x stability x jitter; transition = appending one outcome; every non-empty sequence is executed on a fresh real client (one trace) and every wait it produced is compared with the reference recurrence; failing prefixes are not extended"));
     report.set("sequence_length_bound", json!(length));
     report.add_count("states", states.load(Ordering::Relaxed)); report.add_count("transitions", transitions.load(Ordering::Relaxed)); report.add_count("traces_validated_against_impl", executions.load(Ordering::Relaxed));
     report.set("waits_checked", json!(waits_checked.load(Ordering::Relaxed)));
